@@ -1,3 +1,17 @@
 HOOK_COMMITS = ["6dcae87", "8334e9f", "84c33bf"]
 NOT_BUILT = {}
-BUILT = {}
+_MC = "model_checking"
+_NOTE_SEAMS = ("Trusted: the harness seams (scripted samplers / goal / validity world / logical clock behind cargo feature `verif`), "
+               "rustc, and that goal bias 0 or 1 makes the planner independent of its RNG. Bounded by the alphabets and depths recorded in the evidence.")
+BUILT = {
+ "C01": (_MC, "exhaustive enumeration of sample sequences against the real planners; ground-truth world oracle", "DESIGN 2/C01",
+         "Every sample sequence up to the depth bound over a 10-12 state alphabet (duplicates, goal states, states inside obstacles), for every world of a 19-world lattice (all 16 obstacle subsets, start marginally inside an obstacle, goal region overlapping an obstacle), 4 planners, 6 spaces, step lattice and both RRT-Connect goal roots, is executed on a fresh real planner; every state of every returned path is judged by the pure world predicate and an invalid start must yield InvalidStartState.", _NOTE_SEAMS),
+ "C02": (_MC, "exhaustive enumeration of sample sequences and call histories against the real planners", "DESIGN 2/C02",
+         "All sample sequences up to the depth bound x worlds x steps x planners x spaces: each returned path must be non-empty, start bit-for-bit at the installed start and end inside the goal region (pure predicate).", _NOTE_SEAMS),
+ "C03": (_MC, "exhaustive enumeration of sample sequences; validity-query log coverage oracle + dense ground truth", "DESIGN 2/C03",
+         "For every returned path of every enumerated sequence (thin-wall / sliver worlds x resolution x step x radius lattice) each segment must be covered by accepted validity queries lying on the segment with no gap above the space's longest-valid-segment length, and dense ground truth must show no invalid stretch >= L inside one obstacle.", _NOTE_SEAMS),
+ "C04": (_MC, "exhaustive enumeration of sample sequences over a bounds lattice; independent bounds model", "DESIGN 2/C04",
+         "Bounds lattice (boxes, angular intervals of span <pi, =pi, >pi, touching +-pi, cones of 6 radii / 2 centres, compounds and SE(2) of these) x in-bounds alphabets on both sides of the seam x all sequences to the depth bound x 4 planners: every returned path state must satisfy an independently written bounds model with 1e-9 rounding tolerance.", _NOTE_SEAMS),
+ "C05": (_MC, "exhaustive enumeration of sample sequences over a step/radius lattice", "DESIGN 2/C05",
+         "Step / radius lattice from 0.3 to 1e6 times the unit x worlds x all sequences to the depth bound: consecutive path states are at most max_distance (RRT, RRT-Connect), max(max_distance, search_radius) (RRT*), connection_radius (PRM) apart in the space's own metric (stated NLERP tolerance 1e-5 on SO(3)-containing spaces).", _NOTE_SEAMS),
+}
